@@ -329,6 +329,12 @@ let op_of (s : string) : bop =
 
 let ops_of (s : string) : bop list = if s = "-" then [] else List.map op_of (split_on ';' s)
 
+(* the receive loop over pipelined headers: at most 64 frames *)
+let show_frame = function F1 h -> Printf.sprintf "1:%d" (List.length h.text) | F2 h -> Printf.sprintf "2:%d" (List.length h.hbytes)
+let pipe_loop buf =
+  let (fs, rest) = drain (nat_of_int 64) buf in
+  Printf.sprintf "P=%s R=%d" (if fs = [] then "-" else String.concat "," (List.map show_frame fs)) (List.length rest)
+
 let show_build c ops =
   match brun c ops with
   | BOk out -> "OK " ^ hexs out
@@ -389,11 +395,27 @@ let model_line (f : string list) : string =
   | ["v1fh"; x] -> let x = mbytes x in if utf8_valid x then show_v1s (header_from_str x) else "NOTUTF8"
   | ["v1fa"; x] -> let x = mbytes x in if utf8_valid x then show_v1a (addresses_from_str x) else "NOTUTF8"
   | ["auto"; x] -> show_auto (pa (mbytes x))
-  | ["pipe"; x] ->
-    (* the receive loop over pipelined headers: at most 64 frames *)
-    let (fs, rest) = drain (nat_of_int 64) (mbytes x) in
-    let one = function F1 h -> Printf.sprintf "1:%d" (List.length h.text) | F2 h -> Printf.sprintf "2:%d" (List.length h.hbytes) in
-    Printf.sprintf "P=%s R=%d" (if fs = [] then "-" else String.concat "," (List.map one fs)) (List.length rest)
+  | ["pipe"; x] -> pipe_loop (mbytes x)
+  | ["readpipe"; x; cuts] ->
+    let data = mbytes x in
+    let cuts = (if cuts = "-" then [] else List.map int_of_string (split_on ',' cuts)) @ [List.length data] in
+    let rec sub l a b = (* elements a..b-1 *)
+      (match l with [] -> [] | y :: r -> if b <= 0 then [] else if a > 0 then sub r (a - 1) (b - 1) else y :: sub r 0 (b - 1)) in
+    let rec reads prev = function [] -> [] | c :: r -> sub data prev c :: reads c r in
+    let (fs, rest) = List.fold_left on_read ([], []) (reads 0 cuts) in
+    Printf.sprintf "P=%s R=%d" (if fs = [] then "-" else String.concat "," (List.map show_frame fs)) (List.length rest)
+  | ["sendpipe"; specs; rest] ->
+    let frame spec =
+      (match split_on '@' spec with
+       | ["1"; a] -> Some (fmt1 (addr1 (split_on ',' a)))
+       | ["2"; c; ops] -> (match brun (ctor_of c) (ops_of ops) with BOk out -> Some out | _ -> None)
+       | _ -> failwith "bad frame") in
+    let rec build acc = function
+      | [] -> Some (List.concat (List.rev acc))
+      | sp :: r -> (match frame sp with Some b -> build (b :: acc) r | None -> None) in
+    (match build [] (split_on '~' specs) with
+     | None -> "BUILD"
+     | Some b -> let buf = b @ mbytes rest in Printf.sprintf "N=%d %s" (List.length buf) (pipe_loop buf))
   | ["views1"; x] ->
     (match p1 (mbytes x) with
      | Ok h -> Printf.sprintf "B[%s] O[%s]" (views1_one h) (views1_one (h1_to_owned h))
